@@ -2,7 +2,7 @@ SPECIFICATION SpecS
 CONSTANTS
     Chan = {0, 1, 2}
     Peer = {1, 2}
-    MaxOps = 8
+    MaxOps = 7
     Impl = "Design"
 INVARIANT Inv
 VIEW View
